@@ -2,6 +2,7 @@ SPECIFICATION TSpec
 CONSTANTS NB = 12
           NID = 8
           Wide = TRUE
+          Inners = {"plain", "w", "wV", "wA", "wVA", "tq", "bloom"}
           MaxBatch = 5
 INVARIANTS TypeOK IdentityNeverStored IdentityAlwaysPresent IdentityInlined
 CONSTRAINT TraceConstraint
